@@ -312,7 +312,7 @@ class ConformationContainer:
         self,
         groups: Iterable[Group],
         get_coupled_groups: CallableGroupToGroups,
-    ) -> Iterator[Set[Group]]:
+    ) -> Iterator[List[Group]]:
         """A generator that yields covalently coupled systems.
 
         Args:
@@ -321,15 +321,20 @@ class ConformationContainer:
         Yields:
             covalently coupled systems
         """
-        groups = set(groups)
-        while len(groups) > 0:
+        # Groups hash by identity, so the iteration order of a set of groups
+        # depends on memory addresses. Keep the order of the given list to
+        # make the results reproducible.
+        pending = list(groups)
+        position = {id(group): i for i, group in enumerate(pending)}
+        while len(pending) > 0:
             # extract a system of coupled groups ...
             system: Set[Group] = set()
             self.get_a_coupled_system_of_groups(
-                groups.pop(), system, get_coupled_groups)
+                pending[0], system, get_coupled_groups)
             # ... and remove them from the list
-            groups -= system
-            yield system
+            pending = [group for group in pending if group not in system]
+            yield sorted(
+                system, key=lambda g: position.get(id(g), len(position)))
 
     def get_a_coupled_system_of_groups(self, new_group: Group,
                                        coupled_groups: Set[Group],
